@@ -287,6 +287,52 @@ theorem C05_no_gap (env : Env) (start tip0 : Nat) (inps : List Input) (h0 : star
     · subst h1; omega
     · have := (List.pairwise_cons.mp hs.2.1).1 e h1; omega
 
+def exEnv0 : Env := { chain := fun b => if b = 3 then [31, 32] else if b = 4 then [41] else if b = 9 then [91] else [], chunk := 2, finalizedTag := true }
+
+/-- **header mismatches are transparent**: whatever the header queries answer, when the range fetch returns blocks
+    they are exactly the event blocks of the range (so `stepD`, which uses `eventsIn`, is what the loop sees); and with
+    at most 5 disagreeing attempts it does return. The give-up path (`none`: 6 disagreeing attempts in a row, the caller
+    then treats the range as empty) is outside this theorem — it needs a reorg at every attempt and belongs to C06. -/
+theorem C05_retry_transparent (env : Env) (f t : Nat) (mism : Nat → Nat → Bool) (left attempt : Nat) :
+    (∀ r, getEventsRetry env f t mism left attempt = some r → r = eventsIn env f t) ∧
+    ((∃ k, k ≤ left ∧ (eventsIn env f t).any (fun b => mism (attempt + k) b.1) = false) →
+      getEventsRetry env f t mism left attempt = some (eventsIn env f t)) := by
+  induction left generalizing attempt with
+  | zero =>
+    constructor
+    · intro r h
+      unfold getEventsRetry at h
+      split at h
+      · simp at h
+      · simpa using h.symm
+    · intro ⟨k, hk, hf⟩
+      have : k = 0 := by omega
+      subst this
+      unfold getEventsRetry
+      simp only [Nat.add_zero] at hf
+      simp [hf]
+  | succ n ih =>
+    constructor
+    · intro r h
+      unfold getEventsRetry at h
+      split at h
+      · exact (ih (attempt + 1)).1 r h
+      · simpa using h.symm
+    · intro ⟨k, hk, hf⟩
+      unfold getEventsRetry
+      by_cases hm : (eventsIn env f t).any (fun b => mism attempt b.1) = true
+      · rw [if_pos hm]
+        have hk0 : k ≠ 0 := by
+          intro h0; subst h0; simp only [Nat.add_zero] at hf; rw [hf] at hm; exact absurd hm (by decide)
+        apply (ih (attempt + 1)).2
+        refine ⟨k - 1, by omega, ?_⟩
+        have : attempt + 1 + (k - 1) = attempt + k := by omega
+        rw [this]; exact hf
+      · rw [if_neg hm]
+
+/-- the real constant: `MaxRetryCountBlockHashMismatch = 5` retries after the first attempt; the second attempt succeeding -/
+example : getEventsRetry exEnv0 1 10 (fun a b => a == 0 && b == 4) 5 0 = some (eventsIn exEnv0 1 10) := by decide
+
 /-- non-vacuity: a chain with logs in blocks 3, 4 and 9, chunk 2, tip jumping 5 → 12 → 20, finalized lagging;
     the inputs are admissible and the loop hands over 3, 4, 9 and the marker 12 -/
 def exEnv : Env := { chain := fun b => if b = 3 then [31, 32] else if b = 4 then [41] else if b = 9 then [91] else [], chunk := 2, finalizedTag := true }
